@@ -279,18 +279,27 @@ func (x *VC) declare(hint, sort string) string {
 	return n
 }
 
-// assume adds a guarded assumption.
+// assume adds a path assumption (guarded by the reach condition of the code it follows).
+// Never emitted while a specification is being evaluated: there the guard would not include
+// the reach condition of the obligation the specification belongs to.
 func (x *VC) assume(guard, cond string) {
+	if cond == "true" || x.noName > 0 {
+		return
+	}
+	x.emit("(assert " + sImp(guard, cond) + ")")
+}
+
+// fact adds a universally valid type fact (ranges of machine integers, dynamic types of
+// typed references, allocation of stored references). Facts mentioning bound variables of a
+// quantified specification are dropped.
+func (x *VC) fact(cond string) {
 	if cond == "true" {
 		return
 	}
-	if x.noName > 0 {
-		// inside spec evaluation: type facts are universally valid; those mentioning bound variables are dropped.
-		if strings.Contains(cond, "q_") || strings.Contains(guard, "q_") {
-			return
-		}
+	if x.noName > 0 && strings.Contains(cond, "q_") {
+		return
 	}
-	x.emit("(assert " + sImp(guard, cond) + ")")
+	x.emit("(assert " + cond + ")")
 }
 
 // ---- scalar / composite constructors ---------------------------------------
@@ -434,26 +443,29 @@ func (x *VC) typeFacts(v *Val, st *State) {
 		return
 	}
 	if _, ok := isIntType(v.GT); ok {
-		x.assume("true", x.typeRange(v.T, v.GT))
+		x.fact(x.typeRange(v.T, v.GT))
 		return
+	}
+	if st != nil && x.noName == 0 {
+		x.allocatedFact(v, st)
 	}
 	switch u := v.GT.Underlying().(type) {
 	case *types.Pointer:
 		if _, isStruct := u.Elem().Underlying().(*types.Struct); isStruct {
-			x.assume("true", sOr(sEq(v.T, "0"), sEq("(dtype "+v.T+")", x.tag(v.GT))))
+			x.fact(sOr(sEq(v.T, "0"), sEq("(dtype "+v.T+")", x.tag(v.GT))))
 		}
-		x.assume("true", "(>= "+v.T+" 0)")
+		x.fact("(>= " + v.T + " 0)")
 	case *types.Interface:
-		x.assume("true", "(>= "+v.T+" 0)")
+		x.fact("(>= " + v.T + " 0)")
 		if tags := x.eng.implTags(x, v.GT); tags != nil {
 			alts := []string{sEq(v.T, "0")}
 			for _, tg := range tags {
 				alts = append(alts, sEq("(dtype "+v.T+")", tg))
 			}
-			x.assume("true", sOr(alts...))
+			x.fact(sOr(alts...))
 		}
 	case *types.Map, *types.Chan, *types.Signature:
-		x.assume("true", "(>= "+v.T+" 0)")
+		x.fact("(>= " + v.T + " 0)")
 	}
 }
 
